@@ -411,7 +411,7 @@ func (w *World) sessData(s *MSess, body []byte, final bool, declared string, o c
 		return r
 	}
 	if foreign {
-		if !r.is4xx() {
+		if !r.is4xx() && !w.faultOverlapped(r) { // (a request that an injected disk error hit may fail with a 5xx)
 			w.x.viol([]string{"C08", "C16"}, "session.cross-repo", what, fmt.Sprintf("%s on session of %s through repository %s answered %d", what, s.repo, repo, r.Code))
 		}
 		return r
@@ -601,7 +601,7 @@ func (w *World) sessStatus(s *MSess, repoOverride string) *Resp {
 		return r
 	}
 	if foreign {
-		if !r.is4xx() {
+		if !r.is4xx() && !w.faultOverlapped(r) { // (a request that an injected disk error hit may fail with a 5xx)
 			w.x.viol([]string{"C08", "C16"}, "session.cross-repo", "GET", fmt.Sprintf("status of session of %s through repository %s answered %d", s.repo, repo, r.Code))
 		}
 		return r
@@ -649,7 +649,7 @@ func (w *World) sessCancel(s *MSess, repoOverride string) *Resp {
 		return r
 	}
 	if foreign {
-		if !r.is4xx() {
+		if !r.is4xx() && !w.faultOverlapped(r) { // (a request that an injected disk error hit may fail with a 5xx)
 			w.x.viol([]string{"C08", "C16"}, "session.cross-repo", "DELETE", fmt.Sprintf("cancel of session of %s through repository %s answered %d", s.repo, repo, r.Code))
 		}
 		return r
